@@ -1,8 +1,15 @@
 """C09  Deferred field expressions mean what the same Python expression means.
 
 Differential monitor with an independent oracle.  A seeded generator produces expression
-TREES (own small AST) over the fields of a real packet class (unsigned Int, signed Int, Bits,
-fixed and variable Data, a repeated Int, an Optional).  Every tree is rendered twice:
+TREES (own small AST) over the fields of a real packet class: every kind of field an expression can
+name - unsigned Int, signed Int, members of a Bits run, fixed and variable Data, a repeated Int, an
+optional Int and an optional Data (None vs present), and fields WITH A DESCRIPTOR (AutoLength of a field
+parsed later, AutoLength of a field declared after the expression, Auto(lambda), a duck-typed user
+descriptor on an Int, a Data and a Bits member).  Fields of a nested packet cannot be named by the
+expression language (Ref defines no operators / attribute access; the docs use callables for that).
+For a described field "the already-parsed value" is the value decoded from the input bytes (what the
+field's hidden slot holds), which the harness decodes itself; what the descriptor would show is only
+modelled to COUNT the evaluations in which the two differ.  Every tree is rendered twice:
 
   (1) as bisturi source text (`((a + 3) * b)`, `(8 - a)`, `seq[(a & 1)]`, `a.chooses(k0=.., ..)` ...)
       which is `eval`-ed over the class's REAL field objects - so Python itself dispatches to the
@@ -21,8 +28,10 @@ Part 1   random trees through the compiled callable (all operators, both operand
          objects in the same process and compared with their own eager value: two different expressions
          must never be confused with one another.
 Part 1b  bare fields as conditions (truth / length path of normalize_raw_condition_into_a_callable).
-Part 2   integer-valued trees placed as `Data(expr)`, `.repeated(expr)`, `.when(expr)` and
-         `.repeated(2, when=expr)` in freshly defined classes, observed through Packet.unpack.
+Part 2   integer-valued trees placed as `Data(expr)`, `.repeated(expr)`, `.when(expr)`,
+         `.repeated(2, when=expr)` and `Ref(expr.chooses(Data(1), ..., Data(4)))` in freshly defined classes,
+         observed through Packet.unpack; bare fields additionally as `Data(2).at(field)` (Move takes a field
+         or a callable; it does not compile expressions).
 """
 import hashlib
 import os
@@ -45,9 +54,24 @@ REQUIRED = (
     "p2_sibling_pairs_compared", "p2_sibling_hash_equal_pairs_compared", "p2_sibling_hash_equal_pairs_discriminating",
     # history pass: the same compiled callable / class evaluated again after an evaluation that raised
     "p1_evaluations_after_raise", "p1_value_evaluations_after_raise", "p2_valid_parse_after_failing_parse",
+    # leaf kinds: described fields (evaluations whose outcome differs between the parsed value and the value
+    # the descriptor shows), bit fields, optional fields (None / present), repeated and byte-string fields
+    "p1_described_leaf_evaluations", "p1_described_leaf_evaluations_discriminating",
+    "p1_described_autolength_leaf_discriminating", "p1_described_auto_leaf_discriminating",
+    "p1_described_user_leaf_discriminating", "p1_described_leaf_discriminating_by_exception",
+    "p1_bits_leaf_trees_evaluated", "p1_repeated_leaf_trees_evaluated", "p1_bytes_leaf_trees_evaluated",
+    "p1_optional_leaf_none_evaluations", "p1_optional_leaf_present_evaluations",
+    "p1b_described_conditions_discriminating",
+    "p2_described_leaf_placements", "p2_described_leaf_placements_discriminating",
+    "p2_described_unparsed_tracked_leaf_placements",
+    "p2_described_field_placements", "p2_described_field_placements_discriminating",
+    "p2_ref_selected", "p2_at_position_checked",
 )
 RULE = {
-    "quick": "Part 1: 30000 seeded random expression trees, nesting depth 1..4, over 11 fields of a packet class "
+    "quick": "Part 1: 30000 seeded random expression trees, nesting depth 1..4, over 19 fields of a packet class "
+             "(Int, signed Int, 4 Bits members, Data fixed/variable, repeated Int, optional Int, optional Data, and 6 "
+             "fields with a descriptor: AutoLength x2, Auto(lambda), a user descriptor on Int / Data / Bits; about a third "
+             "of the integer leaves are described fields whose bytes are drawn independently of what the descriptor shows) "
              "(3 code-generation option sets), each compiled ONCE and called as a history on 3 random inputs ordered "
              "raising-inputs-first, then valid ones, then the first input again; for 30% of the trees 1-2 sibling trees "
              "(exactly one constant changed, hash-equal where possible: -1/-2, c +- 2^61-1, int(hash(float))) are compiled "
@@ -55,13 +79,14 @@ RULE = {
              "deferred.BinaryOperationsByCategory with operand shapes field/const, const/field, field/field, "
              "expr/expr, unary - ~ truth len, index, constant slices, chooses (list, tuple, dict, positional, keyword), "
              "if_true_then_else (list, tuple, positional); ~6% deliberately ill-typed operands so exceptions are compared. "
-             "Part 1b: every field as a bare condition. Part 2: 300 integer-valued trees x 4 placements "
-             "(Data size, repeat count, when, repeated-when) = 1200 fresh classes x 6 inputs (failing parses first, then valid, "
-             "then the first again), half of the classes carrying a sibling expression as a second field y after x; "
-             "plus bare-field placements. "
+             "Part 1b: every field as a bare condition. Part 2: 300 integer-valued trees x 5 placements "
+             "(Data size, repeat count, when, repeated-when, Ref selector) = 1500 fresh classes x 6 inputs (failing parses first, "
+             "then valid, then the first again), half of the classes carrying a sibling expression as a second field y after x; "
+             "a field zz tracked by the described field dz is declared AFTER x / y, so dz's descriptor cannot compute while x is parsed; "
+             "plus bare-field placements (when for all 19 fields; size, count, Ref selector, Move position for 7 small ones). "
              "A case is one tree (non-trivial: has at least one operator node); distinct = distinct expression sources.",
     "thorough": "As quick with ~1M trees (62500 per shard x 16), depth 1..6, histories over 3 inputs, siblings for 30%; "
-                "Part 2: 350 trees x 4 placements per shard (22400 classes) x 6 inputs, siblings in half of them.",
+                "Part 2: 350 trees x 5 placements per shard (28000 classes) x 6 inputs, siblings in half of them.",
 }
 ASSUMPTIONS = [
     "eager reference = strict left-to-right evaluation: selector first, then every option of chooses / "
@@ -78,8 +103,14 @@ ASSUMPTIONS = [
     "'no success with a wrong length'; negative size must be a PacketError; negative count gives an empty list",
     "Part 2 sibling field y: which of x / y failed is read from the innermost entry of PacketError.fields_stack; y is "
     "judged only when x parsed (or is unjudged) on that input",
-    "fields with a descriptor (.describe) are not used as operands: compile_expr reads field.field_name which is "
-    "the hidden _described_<name> slot, the property does not say which of the two values is 'the parsed value'",
+    "for a field with a descriptor (.describe) 'the already-parsed value' is the value parsed from the bytes (what the "
+    "field's hidden _described_<name> slot holds after the field was unpacked), not what the descriptor computes from "
+    "other fields; the harness decodes it from the input bytes itself",
+    "fields of a nested packet are not operands: Ref has no deferred operators and no attribute access, the expression "
+    "language cannot name them",
+    "Ref placement: the eager meaning of sel.chooses(Data(1), Data(2), Data(3), Data(4)) is the sel-th element of that tuple; "
+    "judged by the number of bytes the field took. Move (.at) accepts a field or a callable only, so it is exercised with "
+    "bare fields",
     "if_true_then_else is exercised with exactly two alternatives (list, tuple or positional); dict/keyword forms "
     "of if_true_then_else have no Python meaning fixed by the property",
 ]
@@ -93,7 +124,21 @@ OPTION_SETS = [
     ("novector", "{'vectorize': False}"),
 ]
 
-HEADER = "from bisturi.packet import Packet\nfrom bisturi.field import Int, Data, Bits\n\n"
+HEADER = (
+    "from bisturi.packet import Packet\n"
+    "from bisturi.field import Int, Data, Bits, Ref\n"
+    "from bisturi.descriptor import Auto, AutoLength\n\n\n"
+    "class Shown(object):\n"
+    "    # duck-typed user descriptor: the public attribute shows the stored value plus a delta\n"
+    "    def __init__(self, delta):\n"
+    "        self.delta = delta\n\n"
+    "    def __get__(self, instance, owner):\n"
+    "        if instance is None:\n"
+    "            return self\n"
+    "        return getattr(instance, self.real_field_name) + self.delta\n\n"
+    "    def __set__(self, instance, val):\n"
+    "        setattr(instance, self.real_field_name, val)\n\n\n"
+)
 
 OPERAND_BODY = (
     "    a = Int(1)\n"
@@ -101,20 +146,50 @@ OPERAND_BODY = (
     "    s = Int(2, signed=True)\n"
     "    bt1 = Bits(3)\n"
     "    bt2 = Bits(5)\n"
+    "    bd1 = Bits(4).describe(Shown(100))\n"
+    "    bd2 = Bits(4)\n"
     "    n = Int(1)\n"
     "    m = Int(1)\n"
+    "    dl = Int(1).describe(AutoLength('v'))\n"
+    "    da = Int(1).describe(Auto(lambda pkt: (pkt.a + pkt.b) & 255))\n"
+    "    du = Int(2).describe(Shown(1000))\n"
+    "    dz = Int(1).describe(AutoLength('zz'))\n"
     "    d = Data(4)\n"
+    "    dd = Data(2).describe(Shown(b'#'))\n"
     "    v = Data(n)\n"
     "    seq = Int(1).repeated(m)\n"
     "    o = Int(1).when(a)\n"
+    "    ov = Data(2).when(b & 1)\n"
 )
+# declared after the expression fields x / y of Part 2: the field tracked by dz is NOT parsed yet when x / y are
+OPERAND_TAIL = "    zz = Data(1)\n"
 
-FIELD_NAMES = ("a", "b", "s", "bt1", "bt2", "n", "m", "d", "v", "seq", "o")
-FKIND = {"a": "int", "b": "int", "s": "int", "bt1": "int", "bt2": "int", "n": "int", "m": "int",
-         "d": "data", "v": "data", "seq": "seq", "o": "opt"}
-INT_LEAVES = ("a", "a", "b", "b", "s", "s", "bt1", "bt2", "n", "m", "o")
-BYTES_LEAVES = ("d", "d", "v")
+FIELD_NAMES = ("a", "b", "s", "bt1", "bt2", "bd1", "bd2", "n", "m", "dl", "da", "du", "dz", "d", "dd", "v", "seq", "o", "ov")
+FKIND = {"a": "int", "b": "int", "s": "int", "bt1": "int", "bt2": "int", "bd1": "int", "bd2": "int", "n": "int", "m": "int",
+         "dl": "int", "da": "int", "du": "int", "dz": "int",
+         "d": "data", "dd": "data", "v": "data", "seq": "seq", "o": "opt", "ov": "opt"}
+INT_LEAVES = ("a", "a", "b", "b", "s", "s", "bt1", "bt2", "n", "m", "o", "dl", "dl", "da", "du", "dz", "bd1", "bd2")
+BYTES_LEAVES = ("d", "d", "v", "dd", "ov")
 LIST_LEAVES = ("seq",)
+SMALL_LEAVES = ("n", "m", "bt1", "dl", "dz")       # small values: selectors, indexes, sizes
+
+# fields with a descriptor: descriptor kind, and an independent model of what the descriptor shows
+# (on a completely parsed packet) - used only to COUNT the evaluations where the parsed value and
+# the shown value lead to different outcomes, never as the oracle
+DESCRIBED = {"dl": "autolength", "dz": "autolength", "da": "auto", "du": "user", "dd": "user", "bd1": "user"}
+SHOWN = {
+    "dl": lambda v: len(v["v"]),
+    "dz": lambda v: 1,
+    "da": lambda v: (v["a"] + v["b"]) & 255,
+    "du": lambda v: v["du"] + 1000,
+    "dd": lambda v: v["dd"] + b"#",
+    "bd1": lambda v: v["bd1"] + 100,
+}
+# the slot of the packet that holds the value parsed from the bytes
+ATTR = {nm: ("_described_" + nm if nm in DESCRIBED else nm) for nm in FIELD_NAMES}
+BITS_LEAVES = frozenset(("bt1", "bt2", "bd1", "bd2"))
+OPT_LEAVES = frozenset(("o", "ov"))
+BYTES_FIELD_LEAVES = frozenset(("d", "dd", "v"))
 
 BYTE_PICKS = (0, 0, 1, 1, 2, 2, 3, 3, 4, 5, 7, 8, 15, 16, 63, 64, 65, 97, 127, 128, 254, 255)
 S_PICKS = (-32768, -300, -65, -3, -2, -1, -1, 0, 0, 1, 1, 2, 3, 5, 7, 64, 255, 256, 32767)
@@ -122,7 +197,7 @@ ALPHABET = (0x61, 0x62, 0x61, 0x62, 0x61, 0x62, 0x00, 0x25, 0x64, 0xFF, 0x41, 0x
 
 
 def class_src(name, options, extra=""):
-    return "class %s(Packet):\n    __bisturi__ = %s\n%s%s\n" % (name, options, OPERAND_BODY, extra)
+    return "class %s(Packet):\n    __bisturi__ = %s\n%s%s%s\n" % (name, options, OPERAND_BODY, extra, OPERAND_TAIL)
 
 
 def make_input(rng):
@@ -134,16 +209,60 @@ def make_input(rng):
     s = rng.choice(S_PICKS) if rng.random() < 0.7 else rng.randrange(-32768, 32768)
     bt1 = rng.randrange(8)
     bt2 = rng.randrange(32)
+    bd1 = rng.randrange(16)
+    bd2 = rng.randrange(16)
     n = rng.choice((0, 1, 1, 2, 2, 3, 4))
     m = rng.choice((0, 1, 2, 3, 3, 4, 4))
+    # the bytes of the described fields are drawn independently of what their descriptors would compute
+    dl = rng.choice((0, 1, 1, 2, 2, 3, 3, 4, 5, 7))
+    da = byte()
+    du = rng.choice((0, 1, 2, 3, 4, 258, 65535)) if rng.random() < 0.6 else rng.randrange(65536)
+    dz = rng.choice((0, 1, 1, 2, 3, 4, 5)) if rng.random() < 0.8 else byte()
     d = bytes(rng.choice(ALPHABET) for _ in range(4))
+    dd = bytes(rng.choice(ALPHABET) for _ in range(2))
     v = bytes(rng.choice(ALPHABET) for _ in range(n))
     seq = [byte() for _ in range(m)]
     o = byte() if a else None
-    raw = (bytes([a, b]) + s.to_bytes(2, "big", signed=True) + bytes([(bt1 << 5) | bt2, n, m])
-           + d + v + bytes(seq) + (bytes([o]) if a else b""))
-    vals = {"a": a, "b": b, "s": s, "bt1": bt1, "bt2": bt2, "n": n, "m": m, "d": d, "v": v, "seq": seq, "o": o}
+    ov = bytes(rng.choice(ALPHABET) for _ in range(2)) if b & 1 else None
+    raw = (bytes([a, b]) + s.to_bytes(2, "big", signed=True) + bytes([(bt1 << 5) | bt2, (bd1 << 4) | bd2, n, m])
+           + bytes([dl, da]) + du.to_bytes(2, "big") + bytes([dz])
+           + d + dd + v + bytes(seq) + (bytes([o]) if a else b"") + (ov if b & 1 else b""))
+    vals = {"a": a, "b": b, "s": s, "bt1": bt1, "bt2": bt2, "bd1": bd1, "bd2": bd2, "n": n, "m": m,
+            "dl": dl, "da": da, "du": du, "dz": dz, "d": d, "dd": dd, "v": v, "seq": seq, "o": o, "ov": ov}
     return raw, vals
+
+
+def parsed_values(holder):
+    """The values the fields' own slots hold (a described field: its hidden slot, never the descriptor)."""
+    return {nm: getattr(holder, ATTR[nm]) for nm in FIELD_NAMES}
+
+
+def leaf_names(n, out=None):
+    """Set of the field names a tree reads."""
+    if out is None:
+        out = set()
+    t = n[0]
+    if t == "f":
+        out.add(n[1])
+    elif t == "u":
+        leaf_names(n[2], out)
+    elif t == "b":
+        leaf_names(n[2], out)
+        leaf_names(n[3], out)
+    elif t == "i":
+        leaf_names(n[1], out)
+        leaf_names(n[2], out)
+    elif t == "s":
+        leaf_names(n[1], out)
+    elif t == "c":
+        leaf_names(n[2], out)
+        for o in n[3]:
+            leaf_names(o[1] if n[1] in ("dict", "kw") else o, out)
+    elif t == "t":
+        leaf_names(n[2], out)
+        leaf_names(n[3], out)
+        leaf_names(n[4], out)
+    return out
 
 
 # ------------------------------------------------------------------------------------------
@@ -329,7 +448,7 @@ class Gen:
         if form in ("list", "tuple", "pos"):
             sel = self.sub("INT", D - 1)
             if D == 1 and r.random() < 0.7:
-                sel = ("f", r.choice(("n", "m", "bt1")))
+                sel = ("f", r.choice(SMALL_LEAVES))
             if r.random() < 0.8 and D >= 2:
                 # keep the selector in range often: (x & 1), (x % nopt), (x > c)
                 how = r.choice(("and", "mod", "cmp"))
@@ -349,7 +468,7 @@ class Gen:
                 keys = r.sample((0, 1, 2, 3, 4, 5, 7, 255, -1) if r.random() < 0.3 else (0, 1, 2, 3, 4), nopt)
                 sel = self.sub("INT", D - 1)
                 if D == 1 and r.random() < 0.7:
-                    sel = ("f", r.choice(("n", "m", "bt1")))
+                    sel = ("f", r.choice(SMALL_LEAVES))
                 elif D >= 2 and r.random() < 0.7:
                     sel = ("b", r.choice(("and_", "mod")), self.sub("INT", D - 2), ("k", r.choice((3, 4, 5))))
                     if not valid_bin(sel[1], sel[2], sel[3]):
@@ -376,9 +495,9 @@ class Gen:
     def _bytes_selector(self, D):
         r = self.rng
         if D >= 2 and r.random() < 0.6:
-            return ("s", ("f", r.choice(("d", "d", "v"))), r.choice((0, 0, 1, 2)), r.choice((1, 2, 2, 3, None)), None)
+            return ("s", ("f", r.choice(("d", "d", "v", "dd"))), r.choice((0, 0, 1, 2)), r.choice((1, 2, 2, 3, None)), None)
         if D == 1:
-            return ("f", r.choice(("v", "v", "d")))
+            return ("f", r.choice(("v", "v", "d", "dd")))
         return self.sub("BYTES", D - 1)
 
     def _ite(self, K, D):
@@ -412,7 +531,7 @@ class Gen:
                 else:
                     idx = self.sub("INT", D - 1)
                     if D == 1 and r.random() < 0.6:
-                        idx = ("f", r.choice(("n", "m", "bt1")))
+                        idx = ("f", r.choice(SMALL_LEAVES))
                     if r.random() < 0.75 and D >= 2:
                         idx = ("b", "and_", self.sub("INT", D - 2), ("k", r.choice((1, 3))))
                         if not valid_bin("and_", idx[2], idx[3]):
@@ -976,12 +1095,33 @@ def part1(run, rng, classes, ntrees, maxdepth, ninputs, sibling_share):
                 run.count("harness_operand_unpack_failed")
                 run.inconclusive_because("operand-class-unpack-failed:%s" % type(e).__name__)
                 continue
-            parsed = {nm: getattr(pkt, nm) for nm in FIELD_NAMES}
+            parsed = parsed_values(pkt)
             if parsed != vals:
                 run.count("harness_parsed_differs_from_encoded")
                 run.inconclusive_because("operand-class-parsed-values-differ-from-encoded")
+            for nm in DESCRIBED:        # decoded from the bytes by the harness, never read through the library
+                parsed[nm] = vals[nm]
             cands.append((raw, parsed, pkt))
         hist = eager_history(tree, psrc, cands, True)
+        names = leaf_names(tree)
+        described = sorted(nm for nm in names if nm in DESCRIBED)
+        for c, want in hist:
+            for nm in names & OPT_LEAVES:
+                run.count("p1_optional_leaf_none_evaluations" if c[1][nm] is None else "p1_optional_leaf_present_evaluations")
+            if described:
+                # would the value the descriptor shows lead to another outcome than the parsed value?
+                run.count("p1_described_leaf_evaluations")
+                try:
+                    alt = eager(tree, dict(c[1], **{nm: SHOWN[nm](c[1]) for nm in described}))
+                except Skip:
+                    alt = want
+                if not same_outcome(alt, want):
+                    run.count("p1_described_leaf_evaluations_discriminating")
+                    kinds = set(DESCRIBED[nm] for nm in described)
+                    if len(kinds) == 1:     # attributable to one kind of descriptor
+                        run.count("p1_described_%s_leaf_discriminating" % kinds.pop())
+                    if want[0] == "exc" or alt[0] == "exc":
+                        run.count("p1_described_leaf_discriminating_by_exception")
         # history order: inputs on which the expression raises come first, then the valid ones,
         # then the first input once more (A.., B.., A): a callable must not remember earlier calls
         hist.sort(key=lambda h: 0 if h[1][0] == "exc" else 1)
@@ -995,6 +1135,14 @@ def part1(run, rng, classes, ntrees, maxdepth, ninputs, sibling_share):
             samples += 1
         if evaluated:
             run.case(key=key_of(dsrc), nontrivial=True, n=evaluated)
+            for nm in names:
+                run.cover("p1_leaf_fields_evaluated", nm)
+            if names & BITS_LEAVES:
+                run.count("p1_bits_leaf_trees_evaluated")
+            if "seq" in names:
+                run.count("p1_repeated_leaf_trees_evaluated")
+            if names & BYTES_FIELD_LEAVES:
+                run.count("p1_bytes_leaf_trees_evaluated")
             dd = depth(tree)
             depth_hist[dd] = depth_hist.get(dd, 0) + 1
             orders_seen |= acc["orders"]
@@ -1098,7 +1246,7 @@ def part1b(run, rng, classes, ninputs):
         conds = {}
         for nm in FIELD_NAMES:
             fld = env[nm]
-            if getattr(fld, "field_name", None) != nm:
+            if getattr(fld, "field_name", None) != ATTR[nm]:
                 run.count("harness_field_name_differs")
                 run.inconclusive_because("operand-field-name-differs:%s" % nm)
             try:
@@ -1109,8 +1257,21 @@ def part1b(run, rng, classes, ninputs):
         for _ in range(ninputs):
             raw, vals = make_input(rng)
             pkt = cls.unpack(raw)
+            if parsed_values(pkt) != vals:
+                run.count("harness_parsed_differs_from_encoded")
+                run.inconclusive_because("operand-class-parsed-values-differ-from-encoded")
+            for nm in DESCRIBED:
+                # the harness' model of what the descriptors show must be what they really show
+                # (it only feeds the 'discriminating' counters)
+                if not same(getattr(pkt, nm), SHOWN[nm](vals)):
+                    run.count("harness_descriptor_model_differs")
+                    run.inconclusive_because("descriptor-model-differs:%s" % nm)
             for nm, c in conds.items():
-                v = getattr(pkt, nm)
+                v = vals[nm]        # decoded from the bytes by the harness
+                if nm in DESCRIBED:
+                    run.count("p1b_described_conditions")
+                    if bool(SHOWN[nm](vals)) != bool(v):
+                        run.count("p1b_described_conditions_discriminating")
                 try:
                     got = ("val", c(pkt=pkt, raw=raw, offset=0))
                 except Exception as e:
@@ -1140,7 +1301,11 @@ PLACEMENTS = (
     ("count", "    %s = Int(1).repeated(%s)\n"),
     ("when", "    %s = Int(1).when(%s)\n"),
     ("rwhen", "    %s = Int(1).repeated(2, when=%s)\n"),
+    ("ref", "    %s = Ref((%s).chooses(Data(1), Data(2), Data(3), Data(4)), default=b'')\n"),
 )
+REF_SIZES = (1, 2, 3, 4)        # the eager meaning of the options of the 'ref' placement: bytes taken
+# bare-field-only placement (Move takes a field or a callable, it does not compile expressions)
+AT_TEMPLATE = "    %s = Data(2).at(%s, 'begins')\n"
 
 
 def observe_unpack(cls, raw):
@@ -1162,7 +1327,7 @@ def judge_placement(run, place, attr, obs, want, w, vals):
     holder = payload if kind == "ok" else getattr(payload, "packet", None)
     if holder is not None:
         try:
-            parsed = {nm: getattr(holder, nm) for nm in FIELD_NAMES}
+            parsed = parsed_values(holder)
         except AttributeError:
             parsed = None
         if parsed != vals:
@@ -1180,8 +1345,13 @@ def judge_placement(run, place, attr, obs, want, w, vals):
             failing = payload.fields_stack[0][1]
         except Exception:
             failing = None
+        if isinstance(failing, str) and failing.startswith("_shift_to_"):
+            failing = failing[len("_shift_to_"):]
+        # declaration order: operands, x, [y,] zz
         if attr == "x":
-            out = ("ok", getattr(holder, "x")) if (failing == "y" and holder is not None) else ("perr", payload)
+            out = ("ok", getattr(holder, "x")) if (failing in ("y", "zz") and holder is not None) else ("perr", payload)
+        elif failing == "zz" and holder is not None:
+            out = ("ok", getattr(holder, "y"))
         else:
             if failing != "y":
                 return "unjudged"       # x (or an operand) failed first: y was never reached
@@ -1203,6 +1373,35 @@ def judge_placement(run, place, attr, obs, want, w, vals):
         run.cover("p2_expression_exceptions", want[1].__name__)
         return "error"
     V = want[1]
+    if place == "ref":
+        # eager meaning of  V.chooses(Data(1), Data(2), Data(3), Data(4)) : the V-th element of the tuple
+        try:
+            size = REF_SIZES[V]
+        except Exception as e:
+            if out[0] != "perr":
+                return bad("selector evaluates eagerly to %r, choosing raises %s eagerly, but the declaration parsed "
+                           "successfully" % (V, type(e).__name__))
+            run.count("p2_expr_exception_as_packeterror")
+            run.cover("p2_expression_exceptions", type(e).__name__)
+            return "error"
+        if out[0] != "ok":
+            return bad("Ref selector evaluates eagerly to %r (option Data(%d)) but unpack raised PacketError" % (V, size))
+        if not isinstance(out[1], bytes) or len(out[1]) != size:
+            return bad("Ref selector evaluates eagerly to %r (option Data(%d)) but the field parsed as %r" % (V, size, out[1]))
+        run.count("p2_ref_selected")
+        run.cover("p2_ref_options_selected", str(size))
+        return "value"
+    if place == "at":
+        raw = w["raw"]
+        if not isinstance(V, int) or isinstance(V, bool) or V < 0 or V + 3 > len(raw):
+            run.count("p2_at_not_judged")
+            return "unjudged"
+        if out[0] != "ok":
+            return bad("position field holds %d but unpack raised PacketError" % V)
+        if out[1] != raw[V:V + 2]:
+            return bad("position field holds %d but the field placed .at() it parsed as %r, not %r" % (V, out[1], raw[V:V + 2]))
+        run.count("p2_at_position_checked")
+        return "value"
     if place in ("size", "count"):
         if not isinstance(V, int):
             run.count("p2_%s_noninteger_not_judged" % place)
@@ -1283,14 +1482,26 @@ def part2(run, rng, ntrees, maxdepth, ninputs, tag, sibling_share):
             plan = []
             for _ in range(ninputs):
                 raw0, vals = make_input(rng)
-                raw = raw0 + bytes(rng.randrange(256) for _ in range(2 * TAIL))
+                raw = raw0 + bytes(rng.randrange(256) for _ in range(2 * TAIL + 4))
                 try:
                     want = eager(item["tree"], vals)
                     swant = eager(sib["tree"], vals) if sib else None
                 except Skip:
                     run.count("guard_skipped")
                     continue
-                plan.append((raw, vals, want, swant))
+                disc = False
+                if item["described"]:
+                    # outcome if the leaves were read through their descriptors while x is being parsed:
+                    # the field tracked by dz is not parsed yet, that read raises
+                    if "dz" in item["described"]:
+                        disc = True
+                    else:
+                        try:
+                            alt = eager(item["tree"], dict(vals, **{nm: SHOWN[nm](vals) for nm in item["described"]}))
+                            disc = not same_outcome(alt, want)
+                        except Skip:
+                            pass
+                plan.append((raw, vals, want, swant, disc))
             # history: failing parses first, then valid ones, then the first input again
             plan.sort(key=lambda q: 0 if _fails_somewhere(q[2]) else 1)
             if len(plan) >= 2:
@@ -1299,7 +1510,7 @@ def part2(run, rng, ntrees, maxdepth, ninputs, tag, sibling_share):
             before = []
             evaluated = 0
             ok = True
-            for raw, vals, want, swant in plan:
+            for raw, vals, want, swant, disc in plan:
                 for p, _ in PLACEMENTS:
                     cls = space.get(item["names"][p])
                     if cls is None:
@@ -1309,6 +1520,14 @@ def part2(run, rng, ntrees, maxdepth, ninputs, tag, sibling_share):
                     w = {"part": "2", "class_source": HEADER + item["src"][p], "expression": item["dsrc"],
                          "eager_python": item["psrc"], "raw": raw, "unpacked_before": list(before)}
                     st = judge_placement(run, p, "x", obs, want, w, vals)
+                    if item["described"] and st in ("value", "error"):
+                        run.count("p2_described_leaf_placements")
+                        run.cover("p2_described_leaf_placement_kinds", p)
+                        if disc:
+                            run.count("p2_described_leaf_placements_discriminating")
+                            run.cover("p2_described_leaf_placement_kinds_discriminating", p)
+                        if "dz" in item["described"] and st == "value":
+                            run.count("p2_described_unparsed_tracked_leaf_placements")
                     if st == "value" and failed_before.get((p, "x")):
                         run.count("p2_valid_parse_after_failing_parse")
                     elif st == "error":
@@ -1375,7 +1594,8 @@ def part2(run, rng, ntrees, maxdepth, ninputs, tag, sibling_share):
             srcs = {p: class_src(names[p], oopts,
                                  tmpl % ("x", dsrc) + (tmpl % ("y", sib["dsrc"]) if sib else ""))
                     for p, tmpl in PLACEMENTS}
-            batch.append({"tree": tree, "dsrc": dsrc, "psrc": psrc, "names": names, "src": srcs, "sib": sib})
+            batch.append({"tree": tree, "dsrc": dsrc, "psrc": psrc, "names": names, "src": srcs, "sib": sib,
+                          "described": sorted(nm for nm in leaf_names(tree) if nm in DESCRIBED)})
             run.count("p2_trees")
             run.cover("p2_option_sets", oname)
             if len(batch) >= 10:
@@ -1393,15 +1613,13 @@ def part2(run, rng, ntrees, maxdepth, ninputs, tag, sibling_share):
                 proto = "Data(2)" if k % 2 else "Int(1)"
                 body.append(class_src(cn, oopts, "    x = %s.when(%s)\n" % (proto, nm)))
                 plan.append((cn, "when", nm))
-            for nm in ("n", "m", "bt1"):
-                k += 1
-                cn = "PF%s_%d" % (tag, k)
-                body.append(class_src(cn, oopts, "    x = Data(%s)\n" % nm))
-                plan.append((cn, "size", nm))
-                k += 1
-                cn = "PF%s_%d" % (tag, k)
-                body.append(class_src(cn, oopts, "    x = Int(1).repeated(%s)\n" % nm))
-                plan.append((cn, "count", nm))
+            for nm in SMALL_LEAVES + ("bd1", "da"):
+                for place, tmpl in (("size", "    %s = Data(%s)\n"), ("count", "    %s = Int(1).repeated(%s)\n"),
+                                    ("ref", dict(PLACEMENTS)["ref"]), ("at", AT_TEMPLATE)):
+                    k += 1
+                    cn = "PF%s_%d" % (tag, k)
+                    body.append(class_src(cn, oopts, tmpl % ("x", nm)))
+                    plan.append((cn, place, nm))
         src = HEADER + "".join(body)
         try:
             ns = define(src, scratch, "file")
@@ -1415,7 +1633,7 @@ def part2(run, rng, ntrees, maxdepth, ninputs, tag, sibling_share):
                 continue
             for _ in range(max(4, ninputs)):
                 raw0, vals = make_input(rng)
-                raw = raw0 + bytes(rng.randrange(256) for _ in range(TAIL))
+                raw = raw0 + bytes(rng.randrange(256) for _ in range(TAIL + 4))
                 v = vals[nm]
                 if place == "when":
                     # truth for numbers/None, length for sequences: both are the value's truthiness
@@ -1425,8 +1643,15 @@ def part2(run, rng, ntrees, maxdepth, ninputs, tag, sibling_share):
                 run.case(key="2f:%s:%s:%r" % (place, nm, bool(v)), nontrivial=True)
                 run.count("p2_field_condition_checked")
                 w = {"part": "2f", "class_source": src, "class": cn, "expression": nm, "eager_python": nm, "raw": raw}
-                if judge_placement(run, place, "x", observe_unpack(cls, raw), want, w, vals) == "violation":
+                st = judge_placement(run, place, "x", observe_unpack(cls, raw), want, w, vals)
+                if st == "violation":
                     break
+                if nm in DESCRIBED and st in ("value", "error"):
+                    run.count("p2_described_field_placements")
+                    run.cover("p2_described_field_placement_kinds", place)
+                    shown = SHOWN[nm](vals)
+                    if nm == "dz" or (bool(shown) != bool(v) if place == "when" else shown != v):
+                        run.count("p2_described_field_placements_discriminating")
     finally:
         common.drop_scratch(scratch)
 
@@ -1501,7 +1726,7 @@ def replay(run, rec):
                 except Exception:
                     pass
             pkt = cls.unpack(w["raw"])
-            parsed = {nm: getattr(pkt, nm) for nm in FIELD_NAMES}
+            parsed = parsed_values(pkt)     # the fields' own slots (a described field: its hidden slot)
             want = eager_from_source(compile(w["eager_python"], "<py>", "eval"), parsed)
             if f is not None:
                 try:
